@@ -705,22 +705,37 @@ def _subcases(i: int, tier: str = "thorough") -> list:
 N_BUCKETS = 16
 
 
+def _item_cost(c: dict, tab: L.Table) -> int:
+    """Rough relative cost of a sub-case (XMCD objects are by far the slowest thing the parsers build)."""
+    w = 2 + (1 if c.get("no_mt") else 0)
+    if "xmcd" in (c.get("segs") or {}) and c.get("init", 0) == 0:
+        w += 10 + (12 if c.get("no_mt") else 0)
+    return w
+
+
 def _enum_items(tier: str) -> list:
     """All sub-cases of all tuples, ordered so that the runner's strided sharding (item i -> shard i mod n, n | 16) keeps
-    the tuples of one device in one worker (its payloads are built once)."""
+    the tuples of one (device, revision) in one worker (its payloads are built once) and spreads the expensive ones."""
     key = "items:" + ("quick" if tier == "quick" else "thorough")
     if key not in _S:
         s = _state()
         groups: dict = {}
+        cost: dict = {}
         for i, t in enumerate(s["tuples"]):
-            cheap = "xmcd" not in s["tables"][i].names
+            tab = s["tables"][i]
+            cheap = "xmcd" not in tab.names
             for c in _subcases(i, tier):
                 if "no_mt" not in c:
                     c["no_mt"] = cheap or i in s["reps"] or tier != "quick"
-                groups.setdefault(t["dev"], []).append(c)
+                g = (t["dev"], t["rev"])
+                groups.setdefault(g, []).append(c)
+                cost[g] = cost.get(g, 0) + _item_cost(c, tab)
         buckets: list = [[] for _ in range(N_BUCKETS)]
-        for dev in sorted(groups, key=lambda d: (-len(groups[d]), d)):
-            min(buckets, key=len).extend(groups[dev])
+        load = [0] * N_BUCKETS
+        for g in sorted(groups, key=lambda g: (-cost[g], g)):
+            b = load.index(min(load))
+            buckets[b].extend(groups[g])
+            load[b] += cost[g]
         items = []
         while any(buckets):
             for b in range(N_BUCKETS):
@@ -803,7 +818,8 @@ def _layout_strategy():
         case["init"] = init
         if DBI.is_latest(s["db"], t["dev"], t["rev"]) and draw(st.integers(0, 3)) == 0:
             case["rev_latest"] = True
-        case["no_mt"] = draw(st.integers(0, 2)) == 0
+        # parse without memory type tries every memory type of the family: drawn less often where that is slowest (XMCD)
+        case["no_mt"] = draw(st.sampled_from([True, False, False] if "xmcd" not in segs else [True] + [False] * 7))
         return case
 
     return build()
@@ -917,5 +933,5 @@ def parts(ctx):
     return [
         EnumPart("golden", _golden_count, lambda tier, i: {"golden": GOLDEN[i][0]}, run_golden),
         EnumPart("tuples", _enum_count, _enum_item, run_case),
-        HypPart("layouts", _layout_strategy, run_layout, {"quick": 1200, "thorough": 60000}),
+        HypPart("layouts", _layout_strategy, run_layout, {"quick": 900, "thorough": 60000}),
     ]
